@@ -39,6 +39,16 @@ def client_cancellable(prog):
             if f.argc >= 1 and f.locals[1]['s'].startswith('&mut') and not f.trait_item:
                 continue
             roots.append(f.id)
+    # futures the library itself may drop before completion: the argument of tokio::time::timeout / timeout_at
+    for f in prog.fns.values():
+        for c in f.calls:
+            if c.name in ('timeout', 'timeout_at') and c.crate == 'tokio' and c.bb in f.reachable():
+                for a in c.args:
+                    for o in core.origins(f, a):
+                        if o.kind == 'call':
+                            for t in prog.resolve(o.data):
+                                if t in prog.fns and t not in roots:
+                                    roots.append(t)
     seen = set()
     stack = list(roots)
     while stack:
